@@ -159,6 +159,13 @@ VARIANTS = [
          old="        self._track_flops = other._track_flops\n        if other._track_flops:\n            self._flops = other._flops\n",
          new="        if other._track_flops:\n            self._track_flops = True\n            self._flops = other._flops\n",
          expect=("C04-COPY", "_track_flops")),
+    dict(name="seed C04_10: size table reset only when untracked, refilled also when forced", kind="break",
+         edits=[(CORE, "            self._flops = self._write = 0\n            self._sizes = MaxCounter()\n", "            self._flops = self._write = 0\n            fill_sizes = force or not self._track_size\n            if not self._track_size:\n                self._sizes = MaxCounter()\n"),
+                (CORE, "                self._write += node_size\n                self._sizes.add(node_size)\n", "                self._write += node_size\n                if fill_sizes:\n                    self._sizes.add(node_size)\n")],
+         expect=("C04-TRACK", "recompute:_sizes")),
+    dict(name="total_write marks the total as tracked without refilling it", kind="break", file=CORE,
+         old="                self._write += self.get_size(node)\n\n            self._track_write = True\n\n        return", new="                self._write += self.get_size(node)\n\n        self._track_write = True\n\n        return",
+         expect=("C04-TRACK", "recompute:_write")),
 ]
 for v in VARIANTS:
     v.pop("edits", None) if v.get("edits") is None else None
